@@ -324,4 +324,42 @@ def feed (mode : Mode) (accept : Bytes) : St → List Bytes → List Msg × Sess
     | (ms, .open st', false) => let r := feed mode accept st' cs; (ms ++ r.1, r.2.1, r.2.2)
     | r => r
 
+/-! ### `coap_ws_close`: draining the socket for the peer's Close frame -/
+
+/-- sizeof(buf) in coap_ws_close -/
+def drainBuf : Nat := 100
+/-- `count = 5` in coap_ws_close -/
+def drainCount : Nat := 5
+
+/-- `ws->recv_close` after a `coap_ws_read` call: set exactly when the call left through the "Close received" exit,
+i.e. the header just completed in `rd_header` is a Close frame (the other `.closed` exits: 1002 — unmasked frame to a
+server, 1003 — opcode neither binary nor close, 1009 — `all_hdr_in` already set) -/
+def recvCloseOf (mode : Mode) (ret : Ret) (st : St) : Bool :=
+  match ret, st.rdHeader with
+  | .closed, b0 :: b1 :: _ =>
+    !st.allHdrIn && !(mode = .server && !(b1.toNat / 128 = 1)) && b0.toNat % 16 = 8
+  | _, _ => false
+
+/-- the `while (!recv_close && count > 0 && coap_netif_available(session))` loop of `coap_ws_close`, entered with
+`sent_close` set (so `coap_ws_read` does not call `coap_ws_close` again — its `.closed` exits just return 0):
+select() on the socket, `coap_ws_read(session, buf, sizeof(buf))` if it is readable, `count--`.
+Returns (recv_close, state, bytes still unread, number of `coap_ws_read` calls made). -/
+def closeDrain (mode : Mode) : (count : Nat) → St → Bytes → Bool × St × Bytes × Nat
+  | 0, st, av => (false, st, av, 0)
+  | c + 1, st, av =>
+    if av.length = 0 then
+      let r := closeDrain mode c st av         -- select() times out, nothing is read
+      (r.1, r.2.1, r.2.2.1, r.2.2.2)
+    else
+      match readFrame mode drainBuf (av.length + fsCap + 2) st av with
+      | (ret, st', av') =>
+        if recvCloseOf mode ret st' then (true, st', av', 1)
+        else
+          let r := closeDrain mode c st' av'
+          (r.1, r.2.1, r.2.2.1, r.2.2.2 + 1)
+
+/-- `coap_ws_close` on an open session whose handshake is done (`up`), called by the application while `av` is
+available on the socket: the Close frame is written, `sent_close` set, then the drain loop -/
+def wsClose (mode : Mode) (st : St) (av : Bytes) : Bool × St × Bytes × Nat := closeDrain mode drainCount st av
+
 end Coap.M.Ws
